@@ -94,7 +94,15 @@ func oracleLoop(c *Case, idx int, out *childOut) {
 		}
 		if c.Cancel.P == "conn" && c.Cancel.I < n && c.Obs[c.Cancel.I].Est {
 			if t.ConnClosedAt < 0 || t.ConnClosedAt > t.CancelAt+1000*ms {
-				bad("connection-not-closed-after-cancel", fmt.Sprintf("cancelled at %s while connected; the server saw the connection end at %s", fmtDur(t.CancelAt), fmtDur(t.ConnClosedAt)))
+				seen := "did not see the client's TCP connection end within 3 s"
+				if t.ConnClosedAt >= 0 {
+					seen = "saw the connection end only at " + fmtDur(t.ConnClosedAt)
+				}
+				peer := "a peer that answers the close frame"
+				if c.Sched[c.Cancel.I].W == "accepthang" {
+					peer = "a peer that had gone silent (keeps the TCP connection, answers nothing)"
+				}
+				bad("connection-not-closed-after-cancel", fmt.Sprintf("cancelled at %s while connected to %s; the server %s", fmtDur(t.CancelAt), peer, seen))
 			}
 		}
 	}
